@@ -145,17 +145,29 @@ def rule_taint(ctx):
     ctx.ob('C05.taint', f'{f.fq}:logical-time-source', ok, 'NRT wake-up must install exactly the scheduled time', f.node, f.module)
     rs = [c for c in U.calls(f.node) if U.method_name(c) == 'add' and norm(c.func.value) == 'self.scheduler']
     ok = len(rs) == 1
+    chain = ''
     if ok:
         r = roots_of(f.node, rs[0].args[0])
-        ok = f'param:{tparam}' in r and 'PHYSICAL' not in r and 'LOGICAL' not in r
+        ok = 'PHYSICAL' not in r and 'LOGICAL' not in r and f'param:{tparam}' not in r
+        chain = sorted(r)
     ctx.ob('C05.taint', f'{f.fq}:reschedule-source', ok,
-           'NRT re-scheduling must be scheduled time (in beats) + delta converted back with the same clock', f.node, f.module)
+           f'NRT re-scheduling must be the stored scheduled beat + delta (exact, as the rt clocks keep it), not a value re-derived from '
+           f'the wake-up seconds (a seconds->beats->seconds round trip per wake-up accumulates error) nor a time read; roots {chain}', f.node, f.module)
     src = full(f.node)
+    stores = [s_ for s_ in walk_local(f.node) if isinstance(s_, (ast.Assign, ast.AugAssign)) and
+              norm(s_.targets[0] if isinstance(s_, ast.Assign) else s_.target) == 'self.beats']
+    adv = len(stores) == 1 and (
+        (isinstance(stores[0], ast.Assign) and norm(stores[0].value) in ('self.beats + delta', 'delta + self.beats')) or
+        (isinstance(stores[0], ast.AugAssign) and isinstance(stores[0].op, ast.Add) and norm(stores[0].value) == 'delta'))
     ctx.ob('C05.taint', f'{f.fq}:unit-conversion',
-           f'beats = self.clock.secs2beats({tparam})' in src and (
-               'self.clock.beats2secs(beats + delta)' in src or
-               U.before(src, 'self.beats = beats + delta', 'self.scheduler.add(self.clock.beats2secs(self.beats), self)')),
-           'delta is added in the clock unit (beats) and converted back to seconds', f.node, f.module)
+           adv and len(rs) == 1 and norm(rs[0].args[0]) == 'self.clock.beats2secs(self.beats)' and 'secs2beats' not in src,
+           'delta is added to the stored beat position (clock unit) and the sum converted to seconds with the same clock', f.node, f.module)
+    ci_ = repo.cls('sc3.base.clock:ClockTask')
+    init = ci_.methods['__init__']
+    isrc = full(init.node)
+    bp = init.params[1]
+    ctx.ob('C05.taint', f'{init.fq}:stores-beats', f'self.beats = {bp}' in isrc and f'scheduler.add(clock.beats2secs({bp}), self)' in isrc,
+           'the task stores the beat it is scheduled at and is queued at that beat converted to seconds', init.node, init.module)
     g = repo.func('sc3.base.clock:ClockScheduler.run')
     src = full(g.node)
     ok = 'time, clock_task = self.queue.pop()' in src and 'clock_task._wakeup(time)' in src
@@ -361,6 +373,9 @@ def run(ctx):
 
 
 MUTANTS = [
+    dict(rule='C05.taint', name='NRT wake-up re-derives beats from seconds (fix reverted)', file='sc3/base/clock.py',
+         old="            delta = self.task.__awake__(self.clock)\n            if isinstance(delta, (int, float)) and not isinstance(delta, bool):\n                self.beats = self.beats + delta\n",
+         new="            beats = self.clock.secs2beats(time)\n            delta = self.task.__awake__(self.clock)\n            if isinstance(delta, (int, float)) and not isinstance(delta, bool):\n                self.beats = beats + delta\n"),
     dict(rule='C05.taint', name='SystemClock reschedules at now + delta', file='sc3/base/clock.py',
          old="                            time = sched_time + delta\n                            cls._sched_add(time, task)",
          new="                            time = now + delta\n                            cls._sched_add(time, task)"),
